@@ -290,6 +290,8 @@ impl DiameterClient {
         let (reader, writer) = tokio::io::split(stream);
         let writer = Arc::new(Mutex::new(writer));
         self.writer = Some(writer);
+        // as connect(): a fresh waiter table and a fresh closed flag per connection
+        self.msg_caches = Arc::new(Mutex::new(HashMap::new()));
         let msg_caches = Arc::clone(&self.msg_caches);
         self.closed = Arc::new(AtomicBool::new(false));
         ClientHandler {
@@ -297,5 +299,10 @@ impl DiameterClient {
             msg_caches,
             closed: Arc::clone(&self.closed),
         }
+    }
+
+    /// Verification hook: the name `connect()` hands to the TLS library for an address.
+    pub fn verif_tls_domain(address: &str) -> &str {
+        Self::tls_domain(address)
     }
 }
